@@ -407,7 +407,7 @@ FUNCS = [S, "similari::track::store::TrackStore::{new_track, foreign_track_dista
          "similari::trackers::visual_sort::track_attributes::VisualAttributes::{compatible, merge, update_history}", "similari::trackers::visual_sort::voting::VisualVoting::winners",
          "similari::track::voting::best::BestFitVoting::winners", "similari::trackers::sort::voting::SortVoting::winners", "similari::trackers::sort::SortTrack::from"]
 MIR = []
-for (nd, ns, tier) in [(1, 0, 'quick'), (1, 1, 'quick'), (2, 1, 'thorough'), (1, 2, 'thorough')]:
+for (nd, ns, tier) in [(0, 1, 'quick'), (1, 0, 'quick'), (1, 1, 'quick'), (2, 1, 'thorough'), (1, 2, 'thorough')]:
     MIR.append(MQ("step_visual_d%d_t%d" % (nd, ns), tier, mk_step(nd, ns),
                   "one VisualSort::predict_with_scene call from an arbitrary valid tracker state: records echo the detections; attachment by appearance exactly under the use thresholds / collected "
                   "features / visual threshold / min votes, greatest weight wins, else positional maximum-weight fallback, else a new track; truthful voting type; galleries bounded; only this scene's epoch advances",
